@@ -191,6 +191,10 @@ fn sanitize(s: &str) -> String {
 
 /// Child process main loop. Never returns.
 pub fn worker_main(targets: &'static [Target]) -> ! {
+    // log arguments of the code under test are evaluated (see Check::from_args)
+    if std::env::var_os("VH_NO_TRACING").is_none() {
+        let _ = tracing_subscriber::fmt().with_max_level(tracing_subscriber::filter::LevelFilter::TRACE).with_writer(std::io::sink).try_init();
+    }
     crate::util::install_panic_capture();
     let stdin = std::io::stdin();
     let mut inp = stdin.lock();
